@@ -75,7 +75,7 @@ def files_worker(job):
                         rec["hourly_after"] = True
                     m.prepare_results("p", "n", "a", "i")
                     d = base / f"d{k}"
-                    suffix = "" if k % 2 == 0 else f"_run{k}"
+                    suffix = "" if k % 2 == 0 else (f"_run{k}" if k % 4 == 1 else f"_rev{k}.5")     # plain, with a suffix, with a suffix containing a dot
                     if k % 2 == 1:
                         d.mkdir(parents=True, exist_ok=True)      # an output directory that already exists
                         rec["preexisting_dir"] = True
@@ -114,8 +114,23 @@ def file_jobs(rng, tier):
                 "RECTANGLE": ("RECTANGLE", 60.0 + rng.randrange(0, 30), 30.0 + rng.randrange(0, 20), 4.0, 9.0)}[kind]
         return {"phys": phys, "pipe": "SINGLEUTUBE", "loads": loads, "months": months, "max_eft": 35.0, "min_eft": 5.0, "max_h": 135.0,
                 "min_h": 60.0, "flow": phys["flow"], "geom": geom}
+    def tiny(c):
+        # a few hours carry very small non-zero loads: the table must echo them as given
+        for h, v in ((17, 2.5e-4), (4000, -7e-5), (4001, 9.99e-4), (8000, -1e-9), (8759, 4e-6)):
+            c["loads"][h] = v
+        return c
+
+    def rowwise_single():
+        # RowWise on a lot AWAY from the origin, loads so small that a single borehole is enough
+        phys = ghelib.default_physics()
+        x0, y0 = 20.0 + rng.randrange(0, 10), 30.0 + rng.randrange(0, 10)
+        prop = [[x0, y0], [x0 + 40.0, y0], [x0 + 40.0, y0 + 30.0], [x0, y0 + 30.0]]
+        return {"phys": phys, "pipe": "SINGLEUTUBE", "loads": [x * 0.002 for x in ghelib.atlanta_loads()], "months": 12, "max_eft": 35.0, "min_eft": 5.0,
+                "max_h": 135.0, "min_h": 60.0, "flow": phys["flow"], "geom": ("ROWWISE", None, 12.0, 10.0, 1.0, 10.0, -10.0, 10.0, prop, [])}
+
     n = 1 if tier == "quick" else 4
-    return [[cfg("NEARSQUARE", rng.choice([0.02, 0.05]), 12), {**cfg("RECTANGLE", rng.choice([0.08, 0.15]), 24), "hourly_after": True}, {**cfg("NEARSQUARE", 0.1, 12), "reuse_manager": True}] for _ in range(n)]
+    return [[tiny(cfg("NEARSQUARE", rng.choice([0.02, 0.05]), 12)), {**cfg("RECTANGLE", rng.choice([0.08, 0.15]), 24), "hourly_after": True},
+             {**cfg("NEARSQUARE", 0.1, 12), "reuse_manager": True}, rowwise_single()] for _ in range(n)]
 
 
 def run(ctx: core.Ctx):
